@@ -1007,6 +1007,24 @@ def fam_uni(tier, seed):
             g.real_extra.append(list("a" * k + DAO * 60 + EMO * 40 + E9 * 20))
         if well_formed(g):
             out.append(g)
+    # long literals of multi-byte characters: every text derived from them (the failure message `expected string ...`,
+    # what a tracer prints, a preview) is 140-300 bytes with characters of width 2 / 3 / 4 at every alignment, so a cut
+    # at ANY fixed byte count falls inside a character for one of them; every failing input makes the message
+    longs = []
+    for ch, n_short, n_long in ((E9, 70, 150), (DAO, 47, 100), (EMO, 35, 75)):
+        w = len(ch.encode("utf-8"))
+        for k in range(w):
+            longs.append(("longlit_%dB_k%d" % (w, k), "a" * k + ch * n_short, False))
+            longs.append(("longlit_%dB_k%d_300" % (w, k), "a" * k + ch * n_long, False))
+    for name, text, ci in longs:
+        rules = [Rule("S", Seq(Lit(text, ci=ci), Opt(Call("T", "rest"))), export=True, position=True, no_skip_ws=True),
+                 Rule("T", Clo(Call("char"), plus=True), string=True, position=True, no_skip_ws=True)]
+        g = Grammar("uni_%04d" % len(out), rules, root="S", maxlen=2, meta={"shape": name})
+        g.alpha = ["a", text[-1]]
+        g.extra = [list(text[:5]), list(text[:-1])]
+        g.real_extra = [list(text), list(text + "a"), list(text[:-1] + "a"), list(text[:len(text) // 2] + "a" + text[len(text) // 2:])]
+        if well_formed(g):
+            out.append(g)
     return out
 
 
